@@ -1048,3 +1048,78 @@ Proof.
       (eexists; eexists; eexists; split; [eassumption|split; [vm_compute; reflexivity|reflexivity]]).
   - cbn. repeat constructor; cbn; intuition discriminate.
 Qed.
+
+(* ---- when the construction is defined, and the LIKE cards that have no card ---- *)
+Section Defined.
+  Context {T : Type} (SC : Scalar T).
+  Notation env := (env (T:=T)).
+  Notation group := (group (T:=T)).
+
+  (* a list of option tokens made of complete keyword groups — every group reads
+     exactly its own tokens, starts with a keyword that is not a number, and
+     writes something — is cut back into these groups: the first stage of the
+     construction fails only when some token belongs to no keyword group that
+     is read (a stray number after U, IMP, LAT, RHO, MAT: "U=3 7") *)
+  Theorem groups_complete (e : env) : forall (gs : list group),
+    Forall (valid SC e) gs -> Forall (fun g => kws_empty (snd g) = false) gs ->
+    groups SC e (gtoks gs) = Ok gs.
+  Proof.
+    unfold groups.
+    assert (H : forall gs f, Forall (valid SC e) gs -> Forall (fun g => kws_empty (snd g) = false) gs ->
+                (List.length (gtoks gs) <= f)%nat -> groups_from SC f e false (gtoks gs) = Ok gs).
+    { induction gs as [|[tg dg] r IH]; intros f Hv He Hf.
+      - destruct f; reflexivity.
+      - inversion Hv as [|? ? Hg Hr]; subst. inversion He as [|? ? Heg Her]; subst.
+        destruct Hg as (elt & used & Hfst & Hn & Hs). cbn [fst snd] in *. subst tg.
+        unfold gtoks in *. cbn [map List.concat app] in *.
+        destruct f as [|f]; [cbn in Hf; lia|]. cbn [groups_from fst app].
+        rewrite (step_app SC e elt used (List.concat (map fst r)) dg [] (valid_head SC e r Hr) Hs).
+        cbn [bind app]. rewrite Heg. cbn [andb].
+        rewrite app_length, Nat.add_sub, firstn_app, Nat.sub_diag, firstn_all. cbn [firstn].
+        rewrite app_nil_r, Hn, toks_eqb_refl, Hs. cbn [negb andb].
+        rewrite IH; [reflexivity|exact Hr|exact Her|]. cbn in Hf. rewrite app_length in Hf. lia. }
+    intros gs Hv He. apply H; [exact Hv|exact He|apply le_n].
+  Qed.
+
+  (* no explicit card (its MAT / RHO belong to BUT lists only) is parsed to a cell
+     with a material and no density: the copy made by "LIKE <void cell> BUT MAT=m"
+     without RHO is such a cell, so it abbreviates no card — it is not a valid
+     card either: MCNP wants a density for every material *)
+  Theorem explicit_card_has_density (e : env) rank lat (mw : list string) g toks k c z :
+    parse_kws SC e toks = Ok k -> k_mat k = None -> k_rho k = None ->
+    worker_w SC e rank lat (mw, g, toks) = Ok c ->
+    pyint (c_mat c) = Some z -> z <> 0%Z -> c_rho c <> None.
+  Proof.
+    intros Hk Hm Hr Hw Hz Hnz. unfold worker_w in Hw.
+    destruct (parse_material_w e mw) as [[mid rho]|] eqn:Ep; [|discriminate]. cbn [bind] in Hw.
+    destruct (getast e g) as [ast|]; [|discriminate]. rewrite Hk in Hw. cbn [bind] in Hw.
+    rewrite finish_cell_void_rule, Hm, Hr in Hw.
+    destruct (match imp_value SC (k_impl k) with Some v => Ok v | None =>
+                match nth_error (imps e) rank with Some v => Ok v | None => Err EParse end end);
+      [|discriminate]. cbn [bind] in Hw.
+    unfold void_rule in Hw. destruct (pyint mid) as [zm|] eqn:Em; [|discriminate].
+    unfold parse_material_w in Ep. destruct mw as [|m0 r0]; [discriminate|].
+    destruct (pyint m0) as [z0|] eqn:E0; [|discriminate].
+    destruct z0 as [|p0|p0].
+    - inversion Ep; subst. rewrite E0 in Em. inversion Em; subst zm. cbn [bind] in Hw.
+      destruct (to_fillid k lat); [|discriminate]. cbn [bind] in Hw. inversion Hw; subst c.
+      cbn [c_mat] in Hz. rewrite E0 in Hz. inversion Hz; subst. congruence.
+    - destruct r0 as [|d0 r1]; [discriminate|]. inversion Ep; subst. rewrite E0 in Em.
+      inversion Em; subst zm. cbn [bind] in Hw.
+      destruct (to_fillid k lat); [|discriminate]. cbn [bind] in Hw. inversion Hw; subst c.
+      cbn [c_rho]. discriminate.
+    - destruct r0 as [|d0 r1]; [discriminate|]. inversion Ep; subst. rewrite E0 in Em.
+      inversion Em; subst zm. cbn [bind] in Hw.
+      destruct (to_fillid k lat); [|discriminate]. cbn [bind] in Hw. inversion Hw; subst c.
+      cbn [c_rho]. discriminate.
+  Qed.
+End Defined.
+
+(* ... e.g. "2 like 1 but mat=2" on the void card "1 0 -1 imp:n=1": material "2", no density *)
+Lemma example_no_density {T : Type} (SC : Scalar T) (v0 v1 : T) :
+  parse_one_cell SC 2 (wenv v0 v1)
+    [(1%Z, (" 0", " -1 ", "imp:n=1")); (2%Z, ("", " like 1 but", " mat=2"))]
+    1 None ("", " like 1 but", " mat=2") =
+  Ok (mkCell "2" None " -1 " v1 0%Z None None None None) /\
+  canon_card SC (wenv v0 v1) (" 0", " -1 ", "imp:n=1  mat=2") = Err EUnsupported.
+Proof. split; vm_compute; reflexivity. Qed.
